@@ -23,6 +23,73 @@ sys.path.insert(0, os.path.dirname(os.path.abspath(__file__)))
 import kgen
 from kgen import Rng, State, hash_str
 
+def clean(s):
+    """the kernel-level preconditions under which renumbering operations (deletion in immediate mode, garbage
+    collection, swaps, collapse) are exercised: every stored handle designates a live entity, no halfface belongs to
+    two live cells, no cell lists a halfface twice (DESIGN C01's quantifier)"""
+    ne, nf = len(s.E), len(s.F)
+    for e in s.live_e():
+        a, b = s.E[e]
+        if a >= s.nv or b >= s.nv or s.vdel[a] or s.vdel[b]: return False
+    for f in s.live_f():
+        for h in s.F[f]:
+            if h // 2 >= ne or s.edel[h // 2]: return False
+    owner = set()
+    for c in s.live_c():
+        for hf in s.C[c]:
+            if hf // 2 >= nf or s.fdel[hf // 2] or hf in owner: return False
+            owner.add(hf)
+    return True
+
+def simplicial(s):
+    """-> (edges, tris, tets) as sorted vertex tuples if the live part is a clean simplicial tet complex, else None"""
+    if not clean(s): return None
+    edges, tris, tets = set(), set(), set()
+    for e in s.live_e():
+        a, b = s.E[e]
+        k = (min(a, b), max(a, b))
+        if a == b or k in edges: return None
+        edges.add(k)
+    for f in s.live_f():
+        if len(s.F[f]) != 3: return None
+        hes = s.F[f]
+        for i in range(3):
+            if s.he_to(hes[i]) != s.he_from(hes[(i + 1) % 3]): return None
+        k = tuple(sorted(s.he_from(h) for h in hes))
+        if len(set(k)) != 3 or k in tris: return None
+        tris.add(k)
+    for c in s.live_c():
+        if len(s.C[c]) != 4: return None
+        vs, hes = set(), set()
+        for hf in s.C[c]:
+            if len(s.F[hf // 2]) != 3: return None
+            for h in s.halfface(hf): hes.add(h); vs.add(s.he_from(h))
+        if len(vs) != 4 or len(hes) != 12 or any((h ^ 1) not in hes for h in hes): return None
+        k = tuple(sorted(vs))
+        if k in tets: return None
+        tets.add(k)
+    return edges, tris, tets
+
+def link_ok(s, he):
+    """the link condition for collapsing halfedge he (same brute-force definition as the harness oracle)"""
+    sc = simplicial(s)
+    if sc is None: return False
+    edges, tris, tets = sc
+    a, b = s.he_from(he), s.he_to(he)
+    if a == b: return False
+    E = lambda x, y: (min(x, y), max(x, y)) in edges
+    T = lambda *v: tuple(sorted(v)) in tris
+    C = lambda *v: tuple(sorted(v)) in tets
+    for x in s.live_v():
+        if x != a and x != b and E(a, x) and E(b, x) and not T(a, b, x): return False
+    for (x, y) in edges:
+        if x in (a, b) or y in (a, b): continue
+        if T(a, x, y) and T(b, x, y) and not C(a, b, x, y): return False
+    for t in tris:
+        if a in t or b in t: continue
+        if C(a, *t) and C(b, *t): return False
+    return True
+
 class ScriptDead(Exception):
     pass
 
@@ -123,16 +190,23 @@ class Gen(kgen.Gen):
             else: self.tet_strip(2); self.tet_fan(2, closed=False)
 
     def collapse_some(self):
+        """collapses are aimed at edges of cells; in immediate-deletion mode (where the call ends in a garbage
+        collection) only edges satisfying the link condition are taken, in deferred mode any edge of a clean mesh"""
         s = self.st(); r = self.r
-        es = s.live_e()
-        if not es: return
-        # aim at edges of cells
+        if not clean(s) or not s.live_e(): return
+        cand = []
         if s.live_c() and r.chance(3, 4):
             c = s.C[r.pick(s.live_c())]
-            hes = [h for hf in c for h in s.halfface(hf)] if c else []
-            if hes:
-                self.do("@TCollapse %d" % (r.pick(hes) ^ r.below(2))); return
-        self.do("@TCollapse %d" % (2 * self.victim(es) + r.below(2)))
+            cand = [h ^ r.below(2) for hf in c for h in s.halfface(hf)]
+        if not cand: cand = [2 * e + r.below(2) for e in s.live_e()]
+        cand = r.shuffle(cand)[:8]
+        good = [h for h in cand if link_ok(s, h)]
+        if good and r.chance(4, 5): self.do("@TCollapse %d" % good[0]); return
+        if s.deferred and simplicial(s) is not None: self.do("@TCollapse %d" % cand[0])
+
+    def risky(self, f, *a):
+        """renumbering operations of the base kernel only on kernel-clean states (see clean())"""
+        if clean(self.st()): f(*a)
 
     def tet_queries(self):
         s = self.st(); r = self.r
@@ -176,7 +250,7 @@ class Gen(kgen.Gen):
                             self.do("@AddC %d %d %d %d %d" % (r.below(2), 2 * f, 2 * g + 1, 2 * f2, 2 * g2 + 1))
         elif c == 6 and le: self.do("@THalfFace %d %s" % (r.below(2), " ".join(str(2 * r.pick(le) + r.below(2)) for _ in range(r.pick([1, 2, 3, 3, 4])))))
         elif c == 7 and lv: self.do("@TAddCell4 %d %s" % (r.below(2), " ".join(str(r.pick(lv)) for _ in range(4))))
-        elif c == 8: self.do("TCollapse %d" % r.below(60))
+        elif c == 8: self.collapse_some()
         elif c == 9: self.do("@TAddCellV 1 %d %d %d %d" % (40 + r.below(5), 1, 2, 3))
         elif c == 10 and lv: self.do("@THalfEdge %d %d" % (r.pick(lv), r.pick(lv)))
         else: self.tet_queries()
@@ -239,6 +313,7 @@ class Gen(kgen.Gen):
         if not lc: return
         c = r.pick(lc)
         hfs = list(s.C[c])
+        if not clean(s): return
         self.do("@DelC %d" % c)
         self.do("@AddC 1 " + " ".join(map(str, r.shuffle(hfs))))
 
@@ -285,6 +360,64 @@ class Gen(kgen.Gen):
         r = self.r
         self.do("EnDef %d" % r.below(2)); self.do("EnFast %d" % r.below(2))
 
+    def loop(self, nops, step):
+        """nops generator actions; an action that trips over a stale handle of the inspected state is skipped"""
+        for _ in range(nops):
+            try:
+                step()
+            except (IndexError, ValueError, TypeError, KeyError, AttributeError):
+                pass
+
+    def step_tetvalid(self):
+        r = self.r
+        c = r.below(20)
+        if c < 5: self.collapse_some()
+        elif c < 8: self.tet_queries()
+        elif c < 10: self.risky(self.delete_some, "VEFC" if r.chance(1, 2) else "C")
+        elif c == 10: self.risky(self.do, "GC")
+        elif c == 11: self.tet_build()
+        elif c == 12: self.risky(self.do, "EnDef %d" % r.below(2))
+        elif c == 13: self.do("EnFast %d" % r.below(2))
+        elif c == 14: self.set_props(2)
+        elif c == 15: self.risky(self.swap_some)
+        elif c == 16: self.checked_adds()
+        elif c == 17: self.do("QTetAll")
+        elif c == 18:
+            if r.chance(1, 3): self.toggle()
+            else: self.fill_props()
+        else: self.tet_malformed() if r.chance(1, 3) else self.tet_queries()
+
+    def step_tetmal(self):
+        r = self.r
+        c = r.below(10)
+        if c < 5: self.tet_malformed()
+        elif c < 7: self.tet_queries()
+        elif c == 7: self.collapse_some()
+        elif c == 8: self.set_something() if r.chance(1, 2) else self.risky(self.delete_some)
+        else: self.do("QTetAll")
+
+    def step_hexvalid(self):
+        r = self.r
+        c = r.below(16)
+        if c < 4: self.readd_permuted()
+        elif c < 7: self.hex_queries()
+        elif c < 9: self.risky(self.delete_some, "VEFC" if r.chance(1, 2) else "C")
+        elif c == 9: self.risky(self.do, "GC")
+        elif c == 10: self.hex_build()
+        elif c == 11: self.risky(self.do, "EnDef %d" % r.below(2))
+        elif c == 12: self.do("EnFast %d" % r.below(2))
+        elif c == 13: self.risky(self.swap_some)
+        elif c == 14: self.do("QHexAll")
+        else: self.hex_malformed() if r.chance(1, 3) else self.hex_queries()
+
+    def step_hexmal(self):
+        r = self.r
+        c = r.below(10)
+        if c < 6: self.hex_malformed()
+        elif c < 8: self.hex_queries()
+        elif c == 8: self.set_something() if r.chance(1, 2) else self.risky(self.delete_some)
+        else: self.do("QHexAll")
+
     def run_profile(self, nops):
         r = self.r; p = self.profile
         if p == "tetvalid":
@@ -293,23 +426,7 @@ class Gen(kgen.Gen):
             self.tet_build()
             self.fill_props()
             self.do("QTetAll")
-            for _ in range(nops):
-                c = r.below(20)
-                if c < 5: self.collapse_some()
-                elif c < 8: self.tet_queries()
-                elif c < 10: self.delete_some("VEFC" if r.chance(1, 2) else "C")
-                elif c == 10: self.do("GC")
-                elif c == 11: self.tet_build()
-                elif c == 12: self.do("EnDef %d" % r.below(2))
-                elif c == 13: self.do("EnFast %d" % r.below(2))
-                elif c == 14: self.set_props(2)
-                elif c == 15: self.swap_some()
-                elif c == 16: self.checked_adds()
-                elif c == 17: self.do("QTetAll")
-                elif c == 18:
-                    if r.chance(1, 3): self.toggle()
-                    else: self.fill_props()
-                else: self.tet_malformed() if r.chance(1, 3) else self.tet_queries()
+            self.loop(nops, self.step_tetvalid)
             self.do("EnVBU 1"); self.do("EnEBU 1"); self.do("EnFBU 1")
             self.do("QTetAll")
         elif p == "tetmal":
@@ -317,31 +434,15 @@ class Gen(kgen.Gen):
             self.create_props(1)
             self.tet_build()
             if r.chance(1, 2): self.debris()
-            for _ in range(nops):
-                c = r.below(10)
-                if c < 5: self.tet_malformed()
-                elif c < 7: self.tet_queries()
-                elif c == 7: self.collapse_some()
-                elif c == 8: self.set_something() if r.chance(1, 2) else self.delete_some()
-                else: self.do("QTetAll")
+            self.loop(nops, self.step_tetmal)
         elif p == "hexvalid":
             self.full_mode()
             if r.chance(1, 2): self.create_props(1 + r.below(2))
             self.hex_build()
             self.fill_props()
             self.do("QHexAll")
-            for _ in range(nops):
-                c = r.below(16)
-                if c < 4: self.readd_permuted()
-                elif c < 7: self.hex_queries()
-                elif c < 9: self.delete_some("VEFC" if r.chance(1, 2) else "C")
-                elif c == 9: self.do("GC")
-                elif c == 10: self.hex_build()
-                elif c == 11: self.do("EnDef %d" % r.below(2))
-                elif c == 12: self.do("EnFast %d" % r.below(2))
-                elif c == 13: self.swap_some()
-                elif c == 14: self.do("QHexAll")
-                else: self.hex_malformed() if r.chance(1, 3) else self.hex_queries()
+            self.loop(nops, self.step_hexvalid)
+            self.do("EnVBU 1"); self.do("EnEBU 1"); self.do("EnFBU 1")
             self.do("QHexAll")
         elif p == "hexmal":
             self.mode(bu=7 if r.chance(2, 3) else None)
@@ -349,12 +450,7 @@ class Gen(kgen.Gen):
             # then never close the surface (the signature of the known finding is aimed at by the corpus only)
             self.add_vertices(4); self.do("@AddFV 0 1 2 3")
             self.hex_build()
-            for _ in range(nops):
-                c = r.below(10)
-                if c < 6: self.hex_malformed()
-                elif c < 8: self.hex_queries()
-                elif c == 8: self.set_something() if r.chance(1, 2) else self.delete_some()
-                else: self.do("QHexAll")
+            self.loop(nops, self.step_hexmal)
         else:
             raise ValueError(p)
 
